@@ -85,6 +85,9 @@ func (m *Model) Layout() {
 			}
 		}
 	}
+	if len(l.characters) > 0 {
+		m.lines = append(m.lines, l)
+	}
 }
 
 // Scrolls the pager down n lines, if it can
